@@ -364,7 +364,28 @@ def ctor_storage(table, info, _depth=0):
     for p in params:
         if p not in out:
             out[p] = ("dropped", "never stored by %s.__init__" % cls.name)
+    # a default evaluated once at definition time and mutable (an estimator, a list, a dict) is ONE object shared
+    # by every instance built without that argument: set_params on one instance then changes the others
+    a = init.args
+    pos = a.posonlyargs + a.args
+    for arg, d in list(zip(pos[len(pos) - len(a.defaults):], a.defaults)) + list(zip(a.kwonlyargs, a.kw_defaults)):
+        if d is not None and arg.arg in out and not _immutable_default(d):
+            out[arg.arg] = ("unknown", "mutable default argument, one object shared by all instances: " + ast.unparse(d))
     return out
+
+
+def _immutable_default(d):
+    if isinstance(d, ast.Constant):
+        return True
+    if isinstance(d, ast.UnaryOp):
+        return _immutable_default(d.operand)
+    if isinstance(d, ast.BinOp):
+        return _immutable_default(d.left) and _immutable_default(d.right)
+    if isinstance(d, ast.Tuple):
+        return all(_immutable_default(e) for e in d.elts)
+    if isinstance(d, (ast.Name, ast.Attribute)):
+        return True       # a module-level constant, function or type (numpy.float64, numpy.inf, ...)
+    return False
 
 
 def protocol_methods(table, info):
